@@ -294,7 +294,8 @@ func matchStartLoop(i bytecode.StartLoop, current_state *SearchEngineState) *Sea
 
 	inited := next_state.INITLOOPSTACK(i.Id, i.Name)
 	if !inited {
-		if next_state.CHECKZEROMATCHLOOP() {
+		// a mandatory iteration may be empty: only an iteration that had an exit checkpoint is abandoned for consuming nothing
+		if next_state.GETITERATIONSTEP() >= i.MinLoops && next_state.CHECKZEROMATCHLOOP() {
 			next_state.BACKTRACK()
 			return next_state
 		}
